@@ -33,6 +33,7 @@ type SimSDK struct {
 	// OnReject, when set, is told which collections (by name) a rejected ReplicateMessage call carried data of
 	OnReject func(channel string, names []string)
 	OnAck    func(channel string)
+	OpenMax  func(channel string) int // see Ack.OpenMax
 	// OnAckData, when set, is told the end message id and the collections (by name) of an acknowledged pack that carried data
 	OnAckData func(channel string, endSeq int, names []string)
 }
@@ -68,6 +69,10 @@ type Ack struct {
 	Inc     int      `json:"inc"`
 	Step    int      `json:"step"`
 	Clock   int      `json:"clock"`
+	// OpenMax: the greatest end message id that any stream registration which was open when this pack was acknowledged had
+	// handed out for the source channel of this downstream channel (-1: none, or not recorded). A pack whose end id lies
+	// above it was computed from an earlier registration (it outlived a stop of its task).
+	OpenMax int `json:"open_max"`
 }
 
 type DDLRec struct {
@@ -435,7 +440,10 @@ func (c *simClient) ReplicateMessage(ctx context.Context, channelName string, be
 	}
 	c.w.mu.Lock()
 	defer c.w.mu.Unlock()
-	ack := Ack{Channel: channelName, BeginTs: beginTs, EndTs: endTs, Inc: c.w.Inc, Step: c.w.step(), Clock: c.w.tick(), EndSeq: -1}
+	ack := Ack{Channel: channelName, BeginTs: beginTs, EndTs: endTs, Inc: c.w.Inc, Step: c.w.step(), Clock: c.w.tick(), EndSeq: -1, OpenMax: 1 << 30}
+	if c.w.OpenMax != nil {
+		ack.OpenMax = c.w.OpenMax(channelName)
+	}
 	if len(endPositions) > 0 {
 		ack.EndSeq = MsgIDToSeq(endPositions[len(endPositions)-1].MsgID)
 	}
